@@ -723,4 +723,26 @@ theorem retrieve_all_acc (env : Env) (ch : List N) (prev : Info) (root cur : Val
     App (fun r => r.isAcc = true) st st' :=
   retrieve_appends env (endHoare root true) ch prev cur aloc st st' e hflags h
 
+/-- a chain without flags (a function parameter, a filter operand — `build_subFree`) appends
+    plain values only -/
+theorem retrieve_flagfree_plain (env : Env) (ch : List N) (hfix : eraseAcc ch = ch) (prev : Info)
+    (hprev : ch ≠ [] ∨ prev.acc = false) (root cur : Val) (aloc : Option Loc) (st st' : St) (e : Option RtErr)
+    (h : retrieve env ch prev root cur aloc st = .ok (st', e)) :
+    App (fun r => r.isAcc = false) st st' := by
+  refine retrieve_appends env (endHoare root false) ch prev cur aloc st st' e ?_ h
+  have := lastInfos_erase ch prev
+  rw [hfix] at this
+  rcases hprev with hne | hacc
+  · cases ch with
+    | nil => exact absurd rfl hne
+    | cons n rest =>
+      show ∀ j ∈ lastInfos (n :: rest) prev, j.acc = false
+      rw [lastInfos_irrel n rest prev (eraseI prev)]; exact this
+  · have hp : eraseI prev = prev := by
+      cases prev
+      simp only [eraseI] at hacc ⊢
+      simp only [hacc]
+    rw [hp] at this
+    exact this
+
 end JPV
